@@ -215,9 +215,99 @@ theorem addRemoteCandidate_eff (a : Agent) (c : Cand) (g : Good a) :
 
 /-! ## inbound STUN -/
 
+/-! `handleSuccess`: the block after the validity update, cut into the controlling decision, the controlled
+decision and the bookkeeping that follows it (the equation is checked by `rfl`) -/
+def hsCtl (a : Agent) (p : Pair) (pd : Pending) : Agent × List Out :=
+  match pd.nom with
+  | some v =>
+    let superseded := match a.answeredNomination with | none => false | some w => v ≤ w
+    if superseded then (a, [])
+    else ({ a with answeredNomination := some v }).select p.id
+  | none => if a.selected.isNone then a.select p.id else (a, [])
+
+def hsCld (a : Agent) (p : Pair) : Agent × List Out :=
+  match p.deferredNom with
+  | some v =>
+    let superseded := match a.lastNomination with | none => true | some last => v < last
+    if superseded then (a, [])
+    else if a.selected != some p.id then a.select p.id else (a, [])
+  | none =>
+    match a.selected.bind a.pairById with
+    | none => a.select p.id
+    | some sp =>
+      if sp.id != p.id && a.lastNomination.isSome then (a, [])
+      else if sp.id != p.id && (!needsPrioCheck a.cfg || a.pairPrio sp ≤ a.pairPrio p) then a.select p.id
+      else (a, [])
+
+def hsBlock (a : Agent) (p : Pair) (pd : Pending) : Agent × List Out :=
+  if a.controlling then
+    if pd.useCand then hsCtl a p pd else (a, [])
+  else
+    if p.nomOnSuccess then
+      ((hsCld a p).1.modPair p.id fun p => { p with nomOnSuccess := false, deferredNom := none }, (hsCld a p).2)
+    else (a, [])
+
+theorem hs_eq (a : Agent) (now : Nat) (m : Msg) (l r : Cand) (src : Nat) :
+    a.handleSuccess now m l r src =
+    match (a.takePending now m.tid).2 with
+    | none => ((a.takePending now m.tid).1, [])
+    | some pd =>
+      if !(pd.net == l.net && pd.dest == src && pd.src == l.addr) then ((a.takePending now m.tid).1, [])
+      else
+        match (a.takePending now m.tid).1.findPair l r with
+        | none => ((a.takePending now m.tid).1, [])
+        | some p =>
+          ((hsBlock ((a.takePending now m.tid).1.modPair p.id fun q =>
+                { q with state := .succeeded, gResp := true, gRespUC := q.gRespUC || pd.useCand }) p pd).1.modPair p.id
+              fun p => { p with respRecv := p.respRecv + 1 },
+           (hsBlock ((a.takePending now m.tid).1.modPair p.id fun q =>
+                { q with state := .succeeded, gResp := true, gRespUC := q.gRespUC || pd.useCand }) p pd).2) := by
+  unfold Agent.handleSuccess
+  rcases a.takePending now m.tid with ⟨a1, pend⟩
+  cases pend with
+  | none => rfl
+  | some pd =>
+    simp only []
+    split
+    · rfl
+    · cases a1.findPair l r <;> rfl
+
+theorem hsCtl_eff (a : Agent) (p : Pair) (pd : Pending) (g : Good a) (hs : a.started = true) :
+    SelEff okInb a (hsCtl a p pd) := by
+  have sel : ∀ (x : Agent) id', Quiet a x → SelEff okInb a (x.select id') := fun x id' q =>
+    SelEff.after_quiet q (select_eff _ id' (g.of_quiet q) (q.frame.started.trans hs)
+      (Good.okInb (g.of_quiet q) (q.frame.started.trans hs)))
+  unfold hsCtl
+  simp only
+  repeat' split
+  all_goals first
+    | exact SelEff.refl g
+    | exact sel _ _ (Quiet.refl a)
+    | exact sel _ _ ⟨⟨rfl, rfl, rfl, rfl, fun h => h⟩, rfl, rfl, rfl, rfl⟩
+
+theorem hsCld_eff (a : Agent) (p : Pair) (g : Good a) (hs : a.started = true) :
+    SelEff okInb a (hsCld a p) := by
+  unfold hsCld
+  simp only
+  repeat' split
+  all_goals first
+    | exact SelEff.refl g
+    | exact select_eff _ _ g hs (Good.okInb g hs)
+
+theorem hsBlock_eff (a : Agent) (p : Pair) (pd : Pending) (g : Good a) (hs : a.started = true) :
+    SelEff okInb a (hsBlock a p pd) := by
+  unfold hsBlock
+  split
+  · split
+    · exact hsCtl_eff a p pd g hs
+    · exact SelEff.refl g
+  · split
+    · exact (hsCld_eff a p g hs).then_quiet (modPair_quiet _ _ _)
+    · exact SelEff.refl g
+
 theorem handleSuccess_eff (a : Agent) (now : Nat) (m : Msg) (l r : Cand) (src : Nat) (g : Good a) (hs : a.started = true) :
     SelEff okInb a (a.handleSuccess now m l r src) := by
-  unfold Agent.handleSuccess
+  rw [hs_eq]
   have q0 := takePending_quiet a now m.tid
   generalize a.takePending now m.tid = tp at q0
   obtain ⟨b, pend⟩ := tp
@@ -231,12 +321,9 @@ theorem handleSuccess_eff (a : Agent) (now : Nat) (m : Msg) (l r : Cand) (src : 
     · exact SelEff.refl gb
     · split
       · exact SelEff.refl gb
-      · have sel : ∀ id f id', SelEff okInb b ((b.modPair id f).select id') := fun id f id' =>
-          SelEff.after_quiet (modPair_quiet _ _ _) (select_eff _ id' (gb.of_quiet (modPair_quiet _ _ _)) hsb (Good.okInb (gb.of_quiet (modPair_quiet _ _ _)) hsb))
-        have nop : ∀ id f, SelEff okInb b (b.modPair id f, []) := fun id f => SelEff.of_quiet gb ⟨modPair_quiet _ _ _, rfl⟩
-        refine SelEff.then_quiet ?_ (modPair_quiet _ _ _)
-        repeat' split
-        all_goals first | exact sel _ _ _ | exact nop _ _
+      · refine SelEff.then_quiet (r := hsBlock _ _ _) ?_ (modPair_quiet _ _ _)
+        exact SelEff.after_quiet (modPair_quiet _ _ _)
+          (hsBlock_eff _ _ _ (gb.of_quiet (modPair_quiet _ _ _)) ((modPair_quiet _ _ _).frame.started.trans hsb))
 
 theorem QuietO.then_quiet {a : Agent} {r : Agent × List Out} {c : Agent} (h : QuietO a r) (q : Quiet r.1 c) : QuietO a (c, r.2) :=
   ⟨h.1.trans q, h.2⟩
@@ -296,9 +383,12 @@ def cldSel' (a : Agent) (m : Msg) (id : Nat) : Agent × List Out :=
         | some sp =>
           if sp.id == id then false
           else if m.nom.isSome then true
+          else if a.lastNomination.isSome then false
           else !needsPrioCheck a.cfg || a.pairPrio sp < a.pairPrio p
       if sw then a.select id else (a, [])
-    else (a.modPair id fun p => { p with nomOnSuccess := true, deferredNom := m.nom }, [])
+    else if m.nom.isSome || p.deferredNom.isNone then
+      (a.modPair id fun p => { p with nomOnSuccess := true, deferredNom := m.nom }, [])
+    else (a, [])
 
 def cldSel (a : Agent) (m : Msg) (id : Nat) (nominated : Bool) : Agent × List Out :=
   if nominated then
